@@ -124,7 +124,7 @@ def run(ctx):
     lpe = repo.func("_pslinux", "pid_exists")
     rets = [norm_stmt(s.value).replace(" ", "") for s in ast.walk(lpe.node)
             if isinstance(s, ast.Return)]
-    if "tgid==pid" in rets and "pidinpids()" in rets and "False" in rets:
+    if ("tgid==pid" in rets or "pid==tgid" in rets) and "pidinpids()" in rets and "False" in rets:
         ctx.ok("C04.R2", "linux-pid_exists:tgid", sample="Tgid == pid; fallback pid in pids()")
     else:
         ctx.fail("C04.R2", "linux-pid_exists:tgid", lpe.file, lpe.node.lineno, lpe.qual,
